@@ -128,7 +128,8 @@ void run_case(const char* id, char op, char order, const std::vector<uint8_t>& i
     g_alloc_sum = 0;
     g_alloc_budget = 64 * in.size() + 65536;
     g_counting = true;
-    bool ok = decode_as(x, order, blk.p, blk.n);
+    // op 'Z': the default-constructed object (optionals unset, arrays empty), no decode
+    bool ok = op == 'Z' ? true : decode_as(x, order, blk.p, blk.n);
     g_counting = false;
     size_t alloc = g_alloc_sum;
     if (!ok)
